@@ -4,6 +4,7 @@ import DarkluaModel.Rules.FunctionToAssign
 import DarkluaModel.Rules.RemoveMethodCall
 import DarkluaModel.Rules.ConvertSquareRootCall
 import DarkluaModel.C16.Whole
+import DarkluaModel.Shared.Driver
 import DarkluaModel.Rules.FunctionToAssignHeapV
 /-!
 # C16 — the optional refactoring rules preserve program behaviour: property theorems
@@ -226,49 +227,72 @@ example : (FunctionToAssign.processStatement
     FunctionToAssign.keysOf, FunctionToAssign.withSelf, erase]
 example : FunctionToAssign.keysOf [] (some "m") = ["m"] := rfl
 
-/-- **`function_to_assign_rule_refines` (whole rule).** For every program whose function statements
-have at most one key after the root identifier (`function f`, `function a.f`, `function a:m` with
-its implicit `self`; `Good ftaFlags`, decidable), `convert_function_to_assignment` preserves the
-observable outcome. Longer names (`function a.b.c`) differ from the assignment only in the order
-"allocate the closure / walk `a.b`", i.e. in closure NUMBERING when an `__index` handler on the path
-creates closures — renumbering of closures is not covered by the lifting theorem. -/
-theorem function_to_assign_rule_refines (b : Block) (hg : Guard.Good Whole.ftaFlags b = true)
-    {N : NumOps} (ρ : ExtOracle N) (n : Nat) (externs : List String) :
+/-- **`function_to_assign_rule_refines` (whole rule, EVERY program, full statement).** Through the stage-4
+lifting (renumbering of cells, tables and closures, `Shared/VisitorSoundHeapV.lean`,
+`Rules/FunctionToAssignHeapV.lean`): `convert_function_to_assignment` preserves the observable outcome —
+returned / raised values and the trace of external calls — of every program, at every call level and number
+system. Function statements with arbitrarily long names (`function a.b.c:m`, implicit `self` included) are
+covered: the closure the original allocates BEFORE walking `a.b.c` is pinned and matched with the closure
+the assignment allocates AFTER the walk, whatever `__index` handlers run in between. Only hypothesis: the
+oracle of external functions returns no table / closure references (`OracleFlat ρ`; external results are
+numbers, booleans, strings, nil — as in the harness). This replaces the former guarded statement (at most
+one key after the root), kept below as `function_to_assign_rule_refines_any_oracle`. -/
+theorem function_to_assign_rule_refines (b : Block) {N : NumOps} (ρ : ExtOracle N) (hρ : Sem.HeapV.OracleFlat ρ)
+    (n : Nat) (externs : List String) :
     runProgram ρ n externs (FunctionToAssign.apply b) = runProgram ρ n externs b :=
-  Whole.function_to_assign_rule_refines b hg ρ n externs
+  FunctionToAssign.apply_refines b ρ hρ n externs
 
-/-- non-vacuity: `local t = {}  function t:m(x) return self end  function g() end` -/
+/-- name used by the first adoption of the stage-4 theorem (kept for references to it) -/
+theorem function_to_assign_rule_refinesV (b : Block) {N : NumOps} (ρ : ExtOracle N) (hρ : Sem.HeapV.OracleFlat ρ)
+    (n : Nat) (externs : List String) :
+    runProgram ρ n externs (FunctionToAssign.apply b) = runProgram ρ n externs b :=
+  function_to_assign_rule_refines b ρ hρ n externs
+
+/-- the oracle the harness executes (`Shared.driverOracle`: `get…` return a number, `flag…` a boolean,
+every other external function nothing) returns no heap references -/
+theorem driverOracle_flat : Sem.HeapV.OracleFlat Shared.driverOracle := by
+  intro name k args v hv
+  unfold Shared.driverOracle at hv
+  split at hv
+  · simp only [List.mem_singleton] at hv; subst hv; trivial
+  · split at hv
+    · simp only [List.mem_singleton] at hv; subst hv; trivial
+    · simp at hv
+
+/-- … so at the oracle of the execution tie the full statement has NO hypothesis -/
+theorem function_to_assign_rule_refines_driver (b : Block) (n : Nat) (externs : List String) :
+    runProgram Shared.driverOracle n externs (FunctionToAssign.apply b) = runProgram Shared.driverOracle n externs b :=
+  function_to_assign_rule_refines b Shared.driverOracle driverOracle_flat n externs
+
+/-- the former witnesses, now all inside the full theorem:
+`local t = {}  function t:m(x) return self end  function g() end` -/
 def ftaSample : Block :=
   .mk [.localAssign .loc [.mk "t" none] [.table []],
        .function ["t"] (some "m") (.mk [.mk "x" none] false none none [] [] (.mk [] (some (.ret [.var "self"])))),
        .function ["g"] none (.mk [] false none none [] [] (.mk [] none))] none
-example : Guard.Good Whole.ftaFlags ftaSample = true := by decide
 example : FunctionToAssign.apply ftaSample =
     .mk [.localAssign .loc [.mk "t" none] [.table []],
          .assign [.field (.var "t") "m"]
            [.fn (.mk [.mk "self" none, .mk "x" none] false none none [] [] (.mk [] (some (.ret [.var "self"]))))],
          .assign [.var "g"] [.fn (.mk [] false none none [] [] (.mk [] none))]] none := by
   rfl
+-- a long name (outside the former hypothesis `Good ftaFlags`) on which the rule fires
 example : Guard.Good Whole.ftaFlags
     (.mk [.function ["a", "b", "c"] none (.mk [] false none none [] [] (.mk [] none))] none) = false := by decide
-
-/-- **`function_to_assign_rule_refinesV` (whole rule, EVERY program).** Through the stage-4 lifting (renumbering of
-cells, tables and closures, `Shared/VisitorSoundHeapV.lean`): `convert_function_to_assignment` preserves the
-observable outcome of every program — function statements with arbitrarily long names (`function a.b.c:m`)
-included: the closure the original allocates before walking `a.b.c` is pinned and matched with the closure the
-assignment allocates after the walk, whatever `__index` handlers run in between. Hypothesis: the oracle of
-external functions returns no heap references (`OracleFlat ρ`). -/
-theorem function_to_assign_rule_refinesV (b : Block) {N : NumOps} (ρ : ExtOracle N) (hρ : Sem.HeapV.OracleFlat ρ)
-    (n : Nat) (externs : List String) :
-    runProgram ρ n externs (FunctionToAssign.apply b) = runProgram ρ n externs b :=
-  FunctionToAssign.apply_refines b ρ hρ n externs
-
--- non-vacuity: a program outside `Good ftaFlags` on which the rule fires
 example : FunctionToAssign.apply
       (.mk [.function ["a", "b", "c"] (some "m") (.mk [.mk "x" none] false none none [] [] (.mk [] none))] none)
     = .mk [.assign [.field (.field (.field (.var "a") "b") "c") "m"]
         [.fn (.mk [.mk "self" none, .mk "x" none] false none none [] [] (.mk [] none))]] none := by
   rfl
+
+/-- The stage-3 statement, incomparable with the full one: EVERY oracle (external functions may return
+tables / closures), but only programs whose function statements have at most one key after the root
+(`Good ftaFlags`, decidable). -/
+theorem function_to_assign_rule_refines_any_oracle (b : Block) (hg : Guard.Good Whole.ftaFlags b = true)
+    {N : NumOps} (ρ : ExtOracle N) (n : Nat) (externs : List String) :
+    runProgram ρ n externs (FunctionToAssign.apply b) = runProgram ρ n externs b :=
+  Whole.function_to_assign_rule_refines b hg ρ n externs
+example : Guard.Good Whole.ftaFlags ftaSample = true := by decide
 
 /-! ## remove_method_call -/
 
